@@ -123,6 +123,42 @@ def product_terms(v, f, ps, p1, p2, ivar_loop_depth=0):
     return out, ""
 
 
+def schoolbook_by_interpretation(chk, v, f, negacyclic):
+    """the function's effect tree is interpreted for N = 1..7 with the coefficients of both operands as indeterminates
+    (concrete.PolyState): every result[i] must be exactly the polynomial sum_{j+k=i} p1[j]p2[k] (- sum_{j+k=N+i} when negacyclic),
+    whatever it held before.  -> None or a witness"""
+    from sa import concrete, symexec
+    names = [p["n"] for p in f.params]
+    R, A, B, Nn = (sym.sym(n) for n in names[:4])
+    effs = symexec.run_function(v, f, hooks=NOINLINE)[0]
+    for nv in range(1, 8):
+        st = concrete.PolyState()
+
+        def h(kind, x, env):
+            if kind in ("local", "store"):
+                st.assign(x, env)
+            elif kind in ("call", "asm", "unknown", "alloc", "delete"):
+                raise concrete.NotEvaluable("%s at line %s" % (kind, x.get("l")))
+            return None
+        try:
+            concrete.interpret(effs, {Nn: nv}, h, on_segment=st.segment)
+        except concrete.NotEvaluable as e:
+            chk.broken("%s: %s" % (f.name, e))
+        at = lambda arr, i_: ("init", concrete.lvalue_location(sym.idx(arr, I(i_)), {}))
+        for i_ in range(nv if negacyclic else 2 * nv - 1):
+            want = {}
+            for j in range(nv):
+                for k in range(nv):
+                    sgn = 1 if j + k == i_ else (-1 if negacyclic and j + k == nv + i_ else 0)
+                    if sgn:
+                        want[tuple(sorted([at(A, j), at(B, k)], key=repr))] = sgn
+            got = st.read(concrete.lvalue_location(sym.idx(R, I(i_)), {}))
+            norm = lambda d: {m: c % (1 << 32) for m, c in d.items() if c % (1 << 32)}
+            if norm(got) != norm(want):
+                return "for N = %d, result[%d] = %s" % (nv, i_, concrete.show_poly(got, 6))
+    return None
+
+
 def check_schoolbook(chk, v, name, negacyclic):
     f = v.fn(name)
     ps, _ = summ.pieces(v, f, hooks=NOINLINE)
@@ -132,7 +168,12 @@ def check_schoolbook(chk, v, name, negacyclic):
     terms, why = product_terms(v, f, ps, A, B)
     key = "%s sums exactly the valid index pairs%s" % (name, " with the negacyclic sign" if negacyclic else " of the plain product")
     if terms is None or not terms:
-        chk.refuted("R2", key, where=f.where, detail=why or "no accumulation found", variant=v.name)
+        # not the accumulate-into-a-local shape (e.g. the loops interchanged, rows added into result): decide by interpretation
+        bad = schoolbook_by_interpretation(chk, v, f, negacyclic)
+        chk.require(bad is None, "R2", key, where=f.where,
+                    ok="interpreted for N = 1..7 over indeterminate operands: result[i] = sum of poly1[j]*poly2[k] over j+k = i%s" % (
+                        " minus those over j+k = N+i" if negacyclic else ""), bad=bad or "", variant=v.name)
+        chk.vcount(v.name, "R2.schoolbook_functions")
         return
     problems = []
     # the accumulator is reset inside the outer loop and stored to result[i] after the inner loops
